@@ -2,7 +2,7 @@
 
 (a) isolation by exploration (one OS thread): two (thorough: also three) contexts, every pair of operation sequences over the
     alphabet {define a shared name, define a private name, register a record type, import a C-backed library and fill a table,
-    allocate until collections happen, intern fresh symbols, mutate, destroy} x every interleaving; after every operation each
+    allocate until collections happen, intern fresh symbols, mutate, open+close a descriptor-backed port, keep a file open, destroy} x every interleaving; after every operation each
     live context evaluates a fixed probe whose answer must equal the answer of a context that lived ALONE through the same own
     operations (differential, no hand-written expectation).  Run under ASan so that use-after-destroy is visible.
 (b) interleavings of OS threads: 2-3 pthreads each create a context, load the standard environment, import libraries, run a
@@ -37,7 +37,7 @@ def main(tier):
     chk.rule = ("(a) all pairs of per-context operation sequences of length 2 over %d operations x all interleavings (+ three contexts in "
                 "thorough); (b) all schedules with <= %d pre-emptions at interposed libc points for 2 (and 3) threads; (c) TSan runs with 2,4,8,16 "
                 "threads.  distinct_nontrivial = executions in which operations of different contexts/threads interleave") % (
-                    5 if quick else 8, 1 if quick else 2)
+                    7 if quick else 10, 1 if quick else 2)
     chk.assumptions = ["sexp_scheme_init() is called once before the threads start", "scheduling points are the libc calls that touch process-wide "
                        "state; the ThreadSanitizer pass (free-running, same bodies) is what justifies that choice",
                        "ThreadSanitizer is a detector run, not an enumeration"]
@@ -45,8 +45,10 @@ def main(tier):
         build.build_variant(v)
     states = transitions = traces = 0
     # ---------------- (a)
-    alpha = "dthgx" if quick else "dothgsmx"
+    alpha = "dthgx" if quick else "dothgsmfkx"
     seqs = ["".join(s) for s in itertools.product(alpha, repeat=2)]
+    if quick:
+        seqs += ["fg", "fx", "kg", "fk", "kf", "gf"]           # the descriptor operations: only next to collections / each other
     seqs = [s for s in seqs if not s.startswith("x")]          # destroying a context that was never used is a no-op
     solo = {}
 
@@ -60,7 +62,7 @@ def main(tier):
             if rc != 0 or "AddressSanitizer" in out:
                 chk.violation({"op": "iso-solo", "seq": s}, "solo run of sequence %s failed: %s" % (s, out[-300:]))
             solo[(s, role)] = {int(m.group(1)): m.group(2) for m in re.finditer(r"^P %d (\d+) (.*)$" % role, out, re.M)}
-    bseqs = seqs if not quick else [x for x in ("dt", "hg", "dx", "gx", "th", "hd") if x in seqs]
+    bseqs = seqs if not quick else [x for x in ("dt", "hg", "dx", "gx", "kg", "fg") if x in seqs]
     jobs = [(sa, sb, il) for sa in seqs for sb in bseqs for il in interleavings(2, 2)]
 
     def iso_run(j):
@@ -141,8 +143,18 @@ def main(tier):
         if chk.time_left() < 20:
             chk.exhaustive = False
             break
-        rc, out = run_ctxmc("tsan", ["threads", n, 1 if quick else 3], timeout=600)
+        nletters = 20000
+        rc, out = run_ctxmc("tsan", ["threads", n, 1 if quick else 3, nletters], timeout=600)
         lines = dict(re.findall(r"^T(\d+) (.*)$", out, re.M))
+        # every thread wrote its own letter to the shared stdout through the standard port of its own context: none may be lost
+        body = "\n".join(l for l in out.split("\n") if not re.match(r"^T\d+ ", l) and "ThreadSanitizer" not in l)
+        for i in range(min(n, 26)):
+            got = sum(l.count(chr(97 + i)) for l in body.split("\n") if re.fullmatch("[a-z]*", l))
+            want = nletters * (1 if quick else 3)
+            if "ThreadSanitizer" not in out and got != want:
+                chk.violation({"op": "shared-stdout", "threads": n, "thread": i, "got": got, "want": want},
+                              "%d threads writing to the process-wide stdout through their own contexts: thread %d's letter arrived %d times instead of %d" % (n, i, got, want))
+                break
         chk.count(1, outcome="tsan-run")
         if "ThreadSanitizer" in out:
             races += 1
